@@ -434,3 +434,100 @@ func VfC02Run(in *VfC02In, gf VfC02GF) (obs VfC02Obs) {
 	obs.Stats, obs.TagOK = vfC02ParseTag(ctx.Tags())
 	return
 }
+
+// ---------------------------------------------------------------------------
+// exhaustive small-scope group: one flow x ALL result scripts
+
+type (
+	// VfC02EnumIn is one flow of the bounded universe; the harness runs it
+	// under every script of length Len over the alphabet Results.
+	VfC02EnumIn struct {
+		Kinds   map[string][]string `json:"kinds"`
+		Spec    VfC02Spec           `json:"spec"`
+		Results []string            `json:"results"`
+		Len     int                 `json:"len"`
+	}
+
+	// VfC02EnumRunObs is the outcome of one script.
+	VfC02EnumRunObs struct {
+		Names  []string `json:"names"` // per invocation "alias/filter/namespace marker"
+		Result string   `json:"result"`
+	}
+
+	// VfC02EnumObs are the observables of one enumerated flow.
+	VfC02EnumObs struct {
+		Valid   bool              `json:"valid"`
+		NewSpec bool              `json:"newspec"`
+		Panic   bool              `json:"panic"`
+		Runs    []VfC02EnumRunObs `json:"runs"`
+	}
+)
+
+func vfC02AllScripts(alpha []string, n int) [][]string {
+	if n == 0 {
+		return [][]string{{}}
+	}
+	rest := vfC02AllScripts(alpha, n-1)
+	out := make([][]string, 0, len(alpha)*len(rest))
+	for _, a := range alpha {
+		for _, t := range rest {
+			s := make([]string, 0, n)
+			s = append(s, a)
+			s = append(s, t...)
+			out = append(out, s)
+		}
+	}
+	return out
+}
+
+// VfC02RunEnum executes one enumerated flow under all scripts. A valid spec is
+// instantiated the regular way, a rejected one is bound raw (when bindable) so
+// that the loop is observed on it as well.
+func VfC02RunEnum(in *VfC02EnumIn) (obs VfC02EnumObs) {
+	VfC02Register()
+	tmp := VfC02In{Main: in.Spec}
+	VfC02FillOracles(&tmp)
+	in.Spec, in.Kinds = tmp.Main, tmp.Kinds
+	obs.Runs = []VfC02EnumRunObs{}
+	ok, panicked := vfC02Validate(&in.Spec)
+	obs.Valid, obs.Panic = ok, panicked
+	defer func() {
+		vfC02Cur = nil
+		if r := recover(); r != nil {
+			obs.Panic = true
+		}
+	}()
+	vfC02Cur = &vfC02State{}
+	p, accepted := vfC02Build(&in.Spec, "main", false)
+	obs.NewSpec = accepted
+	if !accepted {
+		p, accepted = vfC02Build(&in.Spec, "main", true)
+		if !accepted {
+			return
+		}
+	}
+	nss := vfC02Namespaces(&tmp)
+	for _, sc := range vfC02AllScripts(in.Results, in.Len) {
+		st := &vfC02State{script: sc}
+		vfC02Cur = st
+		ctx := context.New(tracing.NoopSpan)
+		for _, ns := range nss {
+			ctx.SetRequest(ns, &vfC02Req{marker: ns})
+		}
+		res := p.Handle(ctx)
+		stats, tagOK := vfC02ParseTag(ctx.Tags())
+		run := VfC02EnumRunObs{Names: []string{}, Result: res}
+		if !tagOK || len(stats) != len(st.calls) {
+			run.Names = append(run.Names, "<bad tag>")
+		} else {
+			for i, c := range st.calls {
+				if stats[i][1] != c[3] {
+					run.Names = append(run.Names, "<tag result differs>")
+				}
+				run.Names = append(run.Names, stats[i][0]+"/"+c[1]+"/"+c[2])
+			}
+		}
+		obs.Runs = append(obs.Runs, run)
+	}
+	return
+}
